@@ -300,3 +300,7 @@ CHECKS["C05"]["text"] += (" Third build round: the actor level is real text now 
 CHECKS["C05"]["note"] += (" Third build round: A-WAIT is now the scheduling assumption of T20 (the waited future and its map closure run before the next message; the handler's Ok precedes the write in real time — crash window, C04), "
                           "no longer a hand-written model; A-VECWRITE (quick_protobuf Writer over a Vec cannot fail), A-RECORDSIZE (index records fit a 32-bit length), do_notify_membership (T7).")
 CHECKS["C04"]["text"] += " Third build round: the two index-file writers have an always-on BOUNDED crash-image stand-in behind their proof (a save driven one poll at a time, the file copied after every poll, 44 images, each reopened with the real init; seed C04-3)."
+
+CHECKS["C01"]["text"] += (" StateApplyManager::{init, load_index} are under contract too: the two indexes the replay uses are exactly the last-applied index and (end of the LAST snapshot of the catalogue) + 1 that the index manager "
+                          "reports (the waited future's value is exposed as a ghost result of the handler).")
+CHECKS["C01"]["note"] += " A-INDEXSANE: the index manager never reports a snapshot ending at u64::MAX (reply_sane); A-SNAPIMAGE; A-WAIT."
